@@ -322,6 +322,14 @@ func c17Run(c *Ctx) {
 				ops = append(ops, "vsw.block "+id)
 				blocks++
 				c.Count("block")
+				if r.Chance(30) {
+					// the entry is read again shortly before it expires, then looked at shortly after: a read must not prolong
+					// the exhausted mark (or a stale count)
+					ops = append(ops, fmt.Sprintf("vsw.tick %d", ttl-1), "vsw.get "+id, fmt.Sprintf("vsw.tick %d", 1+r.Intn(2)),
+						fmt.Sprintf("vsw.one %s %s 1 %s", Pick(r, []string{"ordered", "most"}), Pick(r, zones), id))
+					sel++
+					c.Count("read-before-expiry")
+				}
 			case x < 75:
 				ops = append(ops, fmt.Sprintf("vsw.tick %d", Pick(r, []int{1, ttl - 1, ttl, ttl + 1, 2 * ttl})))
 				c.Count("tick")
